@@ -18,12 +18,12 @@ RULE = ("0-5 parameters, values in {int, float, None, str (incl. multi-character
         "add / remove / build / build twice / mutate a returned dict / rejected non-str name (AttributeError), duplicate "
         "(KeyError), remove unknown (KeyError); non-trivial = >=2 multi-valued parameters live at a build and >=1 remove "
         "or rejected op before it; distinct = (declared lengths and kinds at each build, op kinds)"
-        "; also: equal-valued values of different type / sign (1, 1.0, True, 0.0, -0.0), str-subclass strings, agent classes / objects as single values, the constructor dict checked for aliasing, collections whose elements are unhashable (lists, dicts, rows of a 2-D array), one collection object declared under two names")
+        "; also: equal-valued values of different type / sign (1, 1.0, True, 0.0, -0.0), str-subclass strings, agent classes / objects as single values, the constructor dict checked for aliasing, collections whose elements are unhashable (lists, dicts, rows of a 2-D array), one collection object declared under two names, 9-13 parameters of which 2-4 are collections")
 COMPONENTS = {"real": ["ECAgent.Batching.ParameterList.__init__ / add_parameter / remove_parameter / build"],
               "stub": ["none - the reference is an independent nested-loop product"]}
 PROBES = ["empty_collection", "no_parameters", "repeated_values", "string_value", "rebuild_after_mutation", "ndarray_value",
           "range_value", "constructor_dict", "reject_nonstr", "reject_duplicate", "reject_unknown", "constructor_rejected",
-          "single_value_is_agent_class_or_object", "string_value_of_a_str_subclass", "values_with_unhashable_elements", "one_object_declared_under_two_names"]
+          "single_value_is_agent_class_or_object", "string_value_of_a_str_subclass", "values_with_unhashable_elements", "one_object_declared_under_two_names", "nine_or_more_parameters"]
 TECHNIQUE = "deterministic simulation: seeded declare/remove/build histories with injected rejected declarations and caller-side mutation vs an independent nested-loop product"
 LEVEL_TEXT = ("Seeded search over declaration histories; every build must equal an independent nested-loop product (first-declared "
               "parameter slowest), be repeatable, return fresh dictionaries and leave declaration and caller's value objects "
@@ -135,7 +135,20 @@ def as_list(spec):
 def generate(rng, tier):
     names = [f"p{i}" for i in range(5)] + ["records", "score"]
     init = None
-    if rng.random() < 0.6:
+    if rng.random() < 0.12:
+        # a model with many arguments of which only a few are swept: 9-13 parameters, most single values, 2-4 collections at
+        # random positions (the order of the product is the declaration order whatever the positions are)
+        wide = [f"q{i}" for i in range(rng.randint(9, 13))]
+        multi = set(rng.sample(range(len(wide)), rng.randint(2, 4)))
+        init = []
+        for i, nm in enumerate(wide):
+            if i in multi:
+                init.append([nm, {"k": rng.choice(["list", "tuple"]), "v": [rng.randint(0, 9) for _ in range(rng.randint(2, 3))]}])
+            else:
+                init.append([nm, rng.choice([{"k": "int", "v": rng.randint(-5, 50)}, {"k": "str", "v": "xyz"}, {"k": "none"},
+                                             {"k": "float", "v": 0.5}])])
+        names = names + wide
+    elif rng.random() < 0.6:
         init = [[rng.choice(names[:5]), gen_val(rng)] for _ in range(rng.randint(0, 3))]
         if rng.random() < 0.06:
             init.append([{"bad": rng.choice(["int", "none", "tuple"])}, gen_val(rng)])
@@ -248,6 +261,8 @@ def execute(sc, ctx):
         lens = [len(as_list(s)) for _, s in decl]
         if not decl:
             ctx.probe("no_parameters")
+        if len(decl) >= 9:
+            ctx.probe("nine_or_more_parameters")
         if 0 in lens:
             ctx.probe("empty_collection")
         if any(len(as_list(s)) != len(set(map(repr, as_list(s)))) for _, s in decl):
